@@ -263,3 +263,16 @@ theorem inv_run (rp : Nat → Bool) (es : List Ev) (s0 s : St) (hp : policy rp e
       exact ih s1 hp.2 (inv_step rp s0 s1 e hp.1 h0 hs) hr
 
 end KV.Model.CfgPool
+
+namespace KV.Model.LibWrapper
+
+theorem cfg_after {σ ι ω : Type} (L : Lib σ ι ω) (cfgOf : σ → Nat) (h : ResetContract L cfgOf) (s : σ) (hist : List ι) :
+    cfgOf (after L s hist) = cfgOf s := by
+  induction hist generalizing s with
+  | nil => rfl
+  | cons i is ih =>
+    simp only [after, List.foldl_cons] at ih ⊢
+    rw [ih (useOnce L s i)]
+    simp only [useOnce, h.cfg_reset, h.cfg_run]
+
+end KV.Model.LibWrapper
